@@ -303,7 +303,7 @@ func runCase(u *nut, c caseID, all []op, r *core.Result) *nut {
 	if single && opn == "none" && c.Mode == 0 && c.Clock == 0 {
 		r.Add("valid-candidate["+st.name+"/"+cand.name+"]/"+verdict, 1)
 	}
-	valid, why := validRef(&dec, nowMs, si)
+	valid, why, hon := validRefH(&dec, nowMs, si)
 	if replayMode {
 		fmt.Printf("reference: valid=%v %s\n", valid, why)
 	}
@@ -339,11 +339,13 @@ func runCase(u *nut, c caseID, all []op, r *core.Result) *nut {
 		// Oracle 3: a block that satisfies every clause of the statement is not refused, provided the
 		// node can judge it at all (it is above the stable height and the signing term is loaded).
 		termLoaded := dec.Height() < termDur+interim+1 || si.stable.Height() >= (dec.Height()-interim-1)/termDur*termDur
-		// (a body whose change logs do not hash to the header's LogRoot is rightly refused although the
-		// header is the honest one: the statement's "reproduces every root" is about what was sent)
-		if valid && len(dec.ChangeLogs) > 0 && dec.ChangeLogs.MerkleRootSha() != dec.LogRoot() {
-			valid = false
-			r.Add("honest-header-with-foreign-change-logs/rejected", 1)
+		// (only for a block that looks the way an honest miner sends it, see asSent: e.g. a body whose
+		// change logs do not hash to the header's LogRoot is rightly refused although the header is the honest one)
+		if valid {
+			if sent, how := asSent(&dec, hon); !sent {
+				valid = false
+				r.Add("valid-header-not-as-an-honest-miner-sends-it/rejected("+how+")", 1)
+			}
 		}
 		if valid && dec.Height() > si.stable.Height() && termLoaded {
 			fp := prop + "/valid-block-rejected/" + strings.Join(c.opNames(all), "+") + "/" + modes[c.Mode] + clockClass(c.Clock)
@@ -511,12 +513,39 @@ func enumerate(all []op) []caseID {
 						}
 					}
 				}
-				// every operator at the two clock positions on either side of the tolerance, re-signed by the miner
+				// pairs of operators that touch only un-hashed body parts or the signature encoding, original signature kept
+				bodyOnly := map[string]bool{"txs": true, "logs": true, "confirms": true, "deputies": true, "snapshot": true, "sig": true, "known": true}
+				for a := range all {
+					for b := a + 1; b < len(all); b++ {
+						if all[a].group == all[b].group || !bodyOnly[all[a].group] || !bodyOnly[all[b].group] {
+							continue
+						}
+						if (all[a].group == "snapshot" || all[b].group == "snapshot") && !snapCand {
+							continue
+						}
+						cases = append(cases, caseID{State: si, Cand: ci, Ops: []int{a, b}, Mode: 0})
+					}
+				}
+				// all pairs again at the two clock positions on either side of the tolerance, re-signed by the miner
+				for a := range all {
+					for b := a + 1; b < len(all); b++ {
+						if all[a].group == all[b].group || all[a].group == "none" {
+							continue
+						}
+						if (all[a].group == "snapshot" || all[b].group == "snapshot") && !snapCand {
+							continue
+						}
+						for _, ki := range []int{2, 3} {
+							cases = append(cases, caseID{State: si, Cand: ci, Ops: []int{a, b}, Mode: 1, FixRoots: true, DepRoot: all[a].group == "snapshot" || all[b].group == "snapshot", Clock: ki})
+						}
+					}
+				}
+				// every operator at every clock position, re-signed by the miner
 				for oi := range all {
 					if all[oi].group == "snapshot" && !snapCand || all[oi].group == "none" || all[oi].group == "time" {
 						continue
 					}
-					for _, ki := range []int{2, 3} {
+					for ki := 1; ki < len(clocks); ki++ {
 						cases = append(cases, caseID{State: si, Cand: ci, Ops: []int{oi}, Mode: 1, FixRoots: all[oi].group == "txs" || all[oi].group == "logs", DepRoot: all[oi].group == "snapshot", Clock: ki})
 					}
 				}
@@ -613,12 +642,12 @@ func main() {
 	for i, g := range gl {
 		gl[i] = fmt.Sprintf("%s:%d", g, groups[g])
 	}
-	r.Rule = fmt.Sprintf("every single mutation operator (%d operators, groups %s; group snapshot only on snapshot-height candidates, each with the DeputyRoot kept and recomputed) x %d signing modes x {tx/log roots recomputed or not} on %d (chain state, valid candidate block) pairs from %d chain states (ordinary heights, forks, after a stable advance, a pruned fork, and a term change: snapshot height, the block after it, first and second block of the new term); the valid block and every time operator additionally at %d positions of the node's clock relative to the block's timestamp (-2 s .. +2 s, millisecond parts 0 and 999); thorough adds all pairs of operators from different groups re-signed by a deputy and every operator at the two clock positions around the tolerance; an outcome is (verdict, operator group, signing mode) or (clock position, verdict)", len(all), strings.Join(gl, " "), len(modes), nc, len(states), len(clocks)-1)
+	r.Rule = fmt.Sprintf("every single mutation operator (%d operators, groups %s; group snapshot only on snapshot-height candidates, each with the DeputyRoot kept and recomputed) x %d signing modes x {tx/log roots recomputed or not} on %d (chain state, valid candidate block) pairs from %d chain states (ordinary heights, forks, after a stable advance, a pruned fork, and a term change: snapshot height, the block after it, first and second block of the new term); the valid block and every time operator additionally at %d positions of the node's clock relative to the block's timestamp (-2 s .. +2 s, millisecond parts 0 and 999); thorough adds all pairs of operators from different groups re-signed by the miner / another deputy, all pairs of body-only operators with the original signature, all pairs at the two clock positions around the tolerance, and every operator at every clock position; an outcome is (verdict, operator group, signing mode) or (clock position, verdict)", len(all), strings.Join(gl, " "), len(modes), nc, len(states), len(clocks)-1)
 	r.Assume = []string{
 		"3 genesis deputies, 10 s slots, observer node; the node's clock is the harness's virtual clock (instrumenter pass `time` on chain and chain/consensus): 61 s (two rounds and a second) after the candidate's timestamp unless the case names a clock position",
 		fmt.Sprintf("params.TermDuration=%d, params.InterimDuration=%d for the whole process (snapshot height %d, the new term signs from height %d); 3 deputy seats, 7 registered candidates with votes {~150000, ~60000, 50000 x3 (tie broken by address: one above, two below the cut), ~10000, 0}; the elected list differs from the ranking one block earlier", termDur, interim, termDur, termDur+interim+1),
 		"gasLimit and extra are the miner's free choices (validRef re-executes with the block's own values)",
-		"oracle 3 (a block satisfying every clause is not refused) reads the statement's one-second tolerance as granted, not merely permitted; it is only applied above the stable height and when the signing term can be known to the node",
+		"oracle 3 (a block satisfying every clause is not refused) reads the statement's one-second tolerance as granted, not merely permitted; it is only applied above the stable height, when the signing term can be known to the node, and to blocks that look the way an honest miner sends them (honest body, clean confirms, canonical signature encoding)",
 	}
 	r.Extra["cases"] = len(cases)
 	core.RunShards(r, core.Opt.Workers, nil, core.Opt.Budget+2*time.Minute, func(i int, tail, journal string) {
@@ -649,7 +678,7 @@ func coverage(r *core.Result, all []op) {
 	for _, st := range states {
 		for _, cand := range candidates[st.name] {
 			switch cand.name {
-			case "tx-on-pruned-fork", "first-of-new-term(term not loaded)":
+			case "tx-on-pruned-fork", "first-of-new-term(term not loaded)", "sibling-of-stable-block":
 				need("valid-candidate[" + st.name + "/" + cand.name + "]/rejected")
 			case "snapshot-with-vote-for-rank2":
 				// what the engine seals here is the subject of a finding; either verdict counts as executed
